@@ -65,6 +65,16 @@ static void hmac_cases(const std::string &a){ size_t B=EVP_MD_block_size(evp(a))
 		{ hmac h2(message_digest::create_by_name(a),K); std::string m=msg(3,77); h2.append(m.data(),m.size()); std::string got(h2.digest_size(),0); h2.readout(&got[0]); if(got!=ref_hmac(a,k,m)) bad("hmac-ctor2:"+a,"HMAC built from a digest object differs",a); }
 		next:; }
 }
+// one cbc object as a state machine: every sequence of <= depth operations {set_iv(A), set_iv(B), encrypt 1|2 blocks, decrypt 1|2 blocks} starting with set_iv, against
+// the standard: each direction chains from the IV last set (or from the last cipher block it processed since)
+static std::string evp_cbc(const EVP_CIPHER *ev,const std::string &k,const std::string &iv,const std::string &in,bool enc){ std::string out(in.size(),0); EVP_CIPHER_CTX *x=EVP_CIPHER_CTX_new(); EVP_CipherInit_ex(x,ev,0,(const unsigned char*)k.data(),(const unsigned char*)iv.data(),enc?1:0); EVP_CIPHER_CTX_set_padding(x,0); int ol=0,fl=0; EVP_CipherUpdate(x,(unsigned char*)&out[0],&ol,(const unsigned char*)in.data(),in.size()); EVP_CipherFinal_ex(x,(unsigned char*)&out[0]+ol,&fl); EVP_CIPHER_CTX_free(x); return out; }
+static void cbc_sequences(int depth){ const char *names[]={"aes128","aes192","aes256"}; const EVP_CIPHER *ev[]={EVP_aes_128_cbc(),EVP_aes_192_cbc(),EVP_aes_256_cbc()}; cbc::cbc_type ty[]={cbc::aes128,cbc::aes192,cbc::aes256}; const char *opn[]={"set_iv(A)","set_iv(B)","encrypt(1 block)","encrypt(2 blocks)","decrypt(1 block)","decrypt(2 blocks)"};
+	for(int t=0;t<3;t++){ std::unique_ptr<cbc> probe=cbc::create(ty[t]); if(!probe.get()) continue; std::string k=msg(61,probe->key_size()),ivA=msg(71,16),ivB=msg(83,16); std::vector<int> seq;
+		std::function<void()> run=[&](){ std::unique_ptr<cbc> c=cbc::create(ty[t]); c->set_key(key(k.data(),k.size())); std::string ie,id,name; for(size_t i=0;i<seq.size();i++){ name+=(i?",":"")+std::string(opn[seq[i]]); } vf::eval();
+			for(size_t i=0;i<seq.size();i++){ int op=seq[i]; if(op<=1){ const std::string &iv=op?ivB:ivA; c->set_iv(iv.data(),16); ie=iv; id=iv; } else { bool enc=op<=3; size_t n= (op%2==0)?16:32; std::string in=msg(300+(int)i*7+op,n),out(n,0); if(enc) c->encrypt(in.data(),&out[0],n); else c->decrypt(in.data(),&out[0],n); std::string want=evp_cbc(ev[t],k,enc?ie:id,in,enc); if(enc) ie=out.substr(n-16); else id=in.substr(n-16);
+					if(out!=want){ bad(std::string("cbc-sequence:")+names[t],std::string("step ")+std::to_string(i+1)+" ("+opn[op]+") of sequence ["+name+"] on one cbc object differs from AES-CBC with the IV in force",std::string(names[t])+" "+name); return; } } }
+			vf::guard("cbc_sequences"); };
+		for(int len=2;len<=depth;len++){ std::function<void(int)> rec=[&](int d){ if(d==len){ run(); return; } for(int o=(d==0?0:0);o<(d==0?2:6);o++){ seq.push_back(o); rec(d+1); seq.pop_back(); } }; rec(0); } } }
 static void cbc_cases(){ const char *names[]={"aes128","aes192","aes256"}; const EVP_CIPHER *ev[]={EVP_aes_128_cbc(),EVP_aes_192_cbc(),EVP_aes_256_cbc()}; cbc::cbc_type ty[]={cbc::aes128,cbc::aes192,cbc::aes256};
 	for(int t=0;t<3;t++){ std::unique_ptr<cbc> c=cbc::create(ty[t]); if(!c.get()){ bad(std::string("cbc-missing:")+names[t],"cbc::create returns null",names[t]); continue; } if(c->block_size()!=16||c->key_size()!=(unsigned)EVP_CIPHER_key_length(ev[t])) bad(std::string("cbc-sizes:")+names[t],"block/key size differ",names[t]);
 		{ std::unique_ptr<cbc> c2=cbc::create(std::string(names[t])); if(!c2.get()) bad(std::string("cbc-byname:")+names[t],"cbc::create(name) returns null",names[t]); }
@@ -103,6 +113,6 @@ int main(int argc,char **argv){ vf::init(argc,argv,"C16","exploration"); if(!kat
 	vf::assume("trusted base: OpenSSL libcrypto one-shot EVP_Digest/HMAC/EVP_aes_*_cbc anchored by FIPS 180-4 / RFC 2202 / RFC 4231 known-answer vectors embedded in the harness; HMAC additionally recomputed by the RFC 2104 formula");
 	if(!vf::C().replay_file.empty()){ printf("replay: C16 cases are deterministic functions of the case description; re-running the quick tier\n"); }
 	vf::parallel(n,n,[&](int sh){ // shard: algorithms x passes
-		int job=0; for(int a=0;a<6;a++){ if((job++%n)==sh) digest_sequences(ALGOS[a],depth); if((job++%n)==sh) digest_chunkings(ALGOS[a]); if((job++%n)==sh) hmac_cases(ALGOS[a]); } if((job++%n)==sh) cbc_cases(); key_cases(vf::thorough()?6:5,sh,n); },1500);
-	vf::require_guard("digest_reused_after_readout"); vf::require_guard("three_chunkings"); vf::require_guard("hmac_reuse"); vf::require_guard("cbc_chained"); vf::require_guard("keys_accepted");
+		int job=0; for(int a=0;a<6;a++){ if((job++%n)==sh) digest_sequences(ALGOS[a],depth); if((job++%n)==sh) digest_chunkings(ALGOS[a]); if((job++%n)==sh) hmac_cases(ALGOS[a]); } if((job++%n)==sh) cbc_cases(); if((job++%n)==sh) cbc_sequences(vf::thorough()?6:5); key_cases(vf::thorough()?6:5,sh,n); },1500);
+	vf::require_guard("digest_reused_after_readout"); vf::require_guard("three_chunkings"); vf::require_guard("hmac_reuse"); vf::require_guard("cbc_chained"); vf::require_guard("cbc_sequences"); vf::require_guard("keys_accepted");
 	return vf::finish(); }
